@@ -232,7 +232,7 @@ def run_case(case):
     return R(None, oc, nontrivial=True, steps=len(steps), tags={spelling, vname, str(mname), form} | set(kinds))
 
 
-EXTRAS = [['n'], ['k'], ['s'], ['0'], ['1'], ['-2'], ['5'], ['x'], ['ro'], ['n', 'm'], ['n', '0'], ['5', 'n'], ['zz', 'k'], ['n', 'm', 'o'], ['n', '0', 'p']]
+EXTRAS = [['n'], ['k'], ['s'], ['0'], ['1'], ['-2'], ['-3'], ['-4'], ['-5'], ['5'], ['x'], ['ro'], ['n', 'm'], ['n', '0'], ['5', 'n'], ['zz', 'k'], ['n', 'm', 'o'], ['n', '0', 'p']]
 SPELLINGS = ['text', 'path', 'tnat', 'mixed', 'sroot', 'tflip']
 MISSING = [None, 'dict', 'list', 'obj', 'count', 'countobj', 'raise1', 'raise2']
 VALUES = ['lit', 'opaque', 'spec', 'list', 'cyc']
